@@ -8,7 +8,7 @@ from util import call, quiet
 
 REQUIRED_THEOREMS = ['Usid.C01.coordinate_map', 'Usid.C01.coordinate_map_sorted', 'Usid.C01.wrapper_views',
                      'Usid.C01.toggle_involutive', 'Usid.C01.views_after_ops', 'Usid.C01.one_permutation']
-RULE = ('[also: index matrices stored as uint8 / uint16 / int32 / int64; a family with 8-bit indices on a side of more than 255 points] [also: up to 4 dimensions per side, int32 data, a chunked main dataset, verbose=True, the wrapper read lazily, explicit ancillaries as numpy / h5py / dask objects or for one side only, the two-value return form] generator datasets (1-3 dimensions per side, sizes 1-4 biased to 1 and equal sizes, every storage permutation '
+RULE = ('[also: reference values that repeat within a dimension or are not increasing - the N-D form is defined by the indices] [also: index matrices stored as uint8 / uint16 / int32 / int64; a family with 8-bit indices on a side of more than 255 points] [also: up to 4 dimensions per side, int32 data, a chunked main dataset, verbose=True, the wrapper read lazily, explicit ancillaries as numpy / h5py / dask objects or for one side only, the two-value return form] generator datasets (1-3 dimensions per side, sizes 1-4 biased to 1 and equal sizes, every storage permutation '
         'reachable, dtypes float64/float32/complex128/compound, built with raw h5py); reshape_to_n_dims for '
         'sort_dims x lazy, with HDF5 and in-memory ancillaries; USIDataset(sort_dims in {F,T}) followed by a random '
         'list of toggles and reads; non-trivial = some side has >= 2 dimensions of size > 1 stored in non-identity '
@@ -25,7 +25,8 @@ def generate(seed, tier):
         rng = derived_rng(seed, 'C01', i)
         while True:
             ds = gen.gen_dataset(rng, max_dims=(4 if i % 10 == 9 else 3), max_size=4,
-                                 dtypes=('f8', 'f8', 'f4', 'c16', 'compound', 'i4'), long_prob=0.12)
+                                 dtypes=('f8', 'f8', 'f4', 'c16', 'compound', 'i4'), long_prob=0.12,
+                                 dup_prob=0.2, unsorted_prob=0.2)
             if gen.n_points(ds['pos']) * gen.n_points(ds['spec']) <= 700:
                 break
         ops = [rng.choice(['toggle', 'read', 'toggle']) for _ in range(rng.randint(0, 5))]
